@@ -127,11 +127,11 @@ func (fr *Frame) execInstr(ins ssa.Instruction, c *blockCtx) {
 	case *ssa.MakeSlice:
 		n := fr.val(ins.Len)
 		cp := fr.val(ins.Cap)
-		obj := g.newObj()
+		obj := g.constFor("arr", Term{g.newObj(), SRef})
 		fr.safety("makeslice", c.reach, fmt.Sprintf("(and (<= 0 %s) (<= %s %s))", n.S, n.S, cp.S), ins)
-		t := fr.define(ins, Term{fmt.Sprintf("(mkSlice %s 0 %s %s)", obj, n.S, cp.S), SSlice})
+		fr.define(ins, Term{fmt.Sprintf("(mkSlice %s 0 %s %s)", obj.S, n.S, cp.S), SSlice})
 		et := ins.Type().Underlying().(*types.Slice).Elem()
-		g.assumeZeroElems(c.st, "(sarr "+t.S+")", et)
+		g.assumeZeroElems(c.st, obj.S, et)
 	case *ssa.MakeMap:
 		obj := g.newObj()
 		t := fr.define(ins, Term{obj, SRef})
@@ -225,6 +225,13 @@ func (g *Gen) unbox(r string, sort string) string {
 	g.sc.DeclareOnce(fn, fmt.Sprintf("(declare-fun %s (%s) Ref)\n(declare-fun un%s (Ref) %s)\n(assert (forall ((v %s)) (! (and (= (un%s (%s v)) v) (= (rootOid (%s v)) (- 2))) :pattern ((%s v)))))",
 		fn, sort, fn, sort, sort, fn, fn, fn, fn))
 	return app("un"+fn, r)
+}
+
+// constFor introduces a declared constant equal to t (usable inside quantifier patterns).
+func (g *Gen) constFor(prefix string, t Term) Term {
+	c := g.sc.Fresh(prefix, t.Sort)
+	g.sc.Assume(eq(c.S, t.S))
+	return c
 }
 
 // assumeZeroElems states that all elements of the fresh backing array arr are zero.
